@@ -772,16 +772,26 @@ func (h *handler) addHandlerContext(messages ...*Message) {
 func (h *handler) handleClose(ctx context.Context) {
 	select {
 	case <-h.routersCloseCh:
-		// for backward compatibility we are closing subscriber
-		h.logger.Debug("Waiting for subscriber to close", nil)
-		if err := h.subscriber.Close(); err != nil {
-			h.logger.Error("Failed to close subscriber", err, nil)
-		}
-		h.logger.Debug("Subscriber closed", nil)
+		h.closeSubscriber()
 	case <-ctx.Done():
 		// we are closing subscriber just when entire router is closed
+		// (Run cancels ctx right after the router started closing, so both channels can be ready at once)
+		select {
+		case <-h.routersCloseCh:
+			h.closeSubscriber()
+		default:
+		}
 	}
 	h.stopFn()
+}
+
+func (h *handler) closeSubscriber() {
+	// for backward compatibility we are closing subscriber
+	h.logger.Debug("Waiting for subscriber to close", nil)
+	if err := h.subscriber.Close(); err != nil {
+		h.logger.Error("Failed to close subscriber", err, nil)
+	}
+	h.logger.Debug("Subscriber closed", nil)
 }
 
 func (h *handler) handleMessage(msg *Message, handler HandlerFunc) {
